@@ -8,8 +8,9 @@ byte `b` to `Char.ofNat b`), which is exact for the three regular expressions be
 Mirrored code (`/repo/go/pkg`):
 
 * `panos/device.go getAPIKey`   : `passRE = (password=).*?(&|$)` → `${1}xxx$2`  (`maskPass`)
-                                   `keyRE  = <key>.*</key>`       → `<key>xxx</key>` (`maskKey`)
-* `panos/device.go`             : `apiRE  = [?]key=.*?&`          → `?key=xxx&`  (`maskApi`)
+                                   `keyRE  = (?s)<key>.*</key>`   → `<key>xxx</key>` (`maskKey`)
+* `panos/device.go`             : request URLs are logged with the prefix `…/api/?key=xxx&` (`setAPIKey`; the
+                                   regexp `[?]key=.*?&` was given up with fix c4a38c5)
 * `errlog/msg.go DoLog`         : `url.QueryUnescape` iff the string starts with `http` or `action=`,
                                    the error of `QueryUnescape` is dropped (result `""`)  (`doLog`)
 * `net/url`                     : `QueryEscape`, `QueryUnescape`, `Values.Encode` (sorted keys)
@@ -33,7 +34,6 @@ def stripPrefix? : Str → Str → Option Str
 
 def xxx : Str := ['x', 'x', 'x']
 def litPass : Str := ['p', 'a', 's', 's', 'w', 'o', 'r', 'd', '=']
-def litApi : Str := ['?', 'k', 'e', 'y', '=']
 def litOpen : Str := ['<', 'k', 'e', 'y', '>']
 def litClose : Str := ['<', '/', 'k', 'e', 'y', '>']
 def litHttp : Str := ['h', 't', 't', 'p']
@@ -80,12 +80,9 @@ def maskLazy (lit : Str) (allowEnd : Bool) (l : Str) : Str := replaceAll (lazySt
 
 /-- `passRE.ReplaceAllString(s, "${1}xxx$2")`. -/
 def maskPass (l : Str) : Str := maskLazy litPass true l
-/-- `apiRE.ReplaceAllString(s, "?key=xxx&")`. -/
-def maskApi (l : Str) : Str := maskLazy litApi false l
+/-! ## greedy matcher `(?s)<key>.*</key>` -/
 
-/-! ## greedy matcher `<key>.*</key>` -/
-
-/-- What follows the LAST occurrence of `</key>` in a line (`none`: no occurrence). -/
+/-- What follows the LAST occurrence of `</key>` (`none`: no occurrence). -/
 def lastClose : Str → Option Str
   | [] => none
   | c :: cs =>
@@ -95,9 +92,26 @@ def lastClose : Str → Option Str
 
 def notNl (c : Char) : Bool := c != '\n'
 
-/-- One match of `<key>.*</key>`: the greedy `.*` runs to the end of the line and backtracks to the
-last `</key>` on it. -/
+/-- One match of `(?s)<key>.*</key>`: `.` matches every byte (flag `s`, fix bb66815), so the greedy `.*`
+runs to the end of the text and backtracks to the last `</key>`. -/
 def keyStep (l : Str) : Option (Str × Str) :=
+  match stripPrefix? litOpen l with
+  | some body =>
+    match lastClose body with
+    | some after => some (litOpen ++ xxx ++ litClose, after)
+    | none => none
+  | none => none
+
+/-- `keyRE.ReplaceAllString(s, "<key>xxx</key>")`. -/
+def maskKey (l : Str) : Str := replaceAll keyStep l
+
+/-! ## the two matchers as they were before fixes c4a38c5 and bb66815 (historic, for the counterexamples) -/
+
+/-- `apiRE = [?]key=.*?&` → `?key=xxx&`, applied to the whole request URL (given up with c4a38c5). -/
+def maskApiOld (l : Str) : Str := maskLazy ['?', 'k', 'e', 'y', '='] false l
+
+/-- `<key>.*</key>` without flag `s`: `.` stops at a line break (before bb66815). -/
+def keyStepOld (l : Str) : Option (Str × Str) :=
   match stripPrefix? litOpen l with
   | some body =>
     match lastClose (body.takeWhile notNl) with
@@ -105,8 +119,7 @@ def keyStep (l : Str) : Option (Str × Str) :=
     | none => none
   | none => none
 
-/-- `keyRE.ReplaceAllString(s, "<key>xxx</key>")`. -/
-def maskKey (l : Str) : Str := replaceAll keyStep l
+def maskKeyOld (l : Str) : Str := replaceAll keyStepOld l
 
 /-! ## `net/url` escaping -/
 
